@@ -305,6 +305,69 @@ fn module_text(pats: &[Pat], nested: bool) -> (String, Vec<String>) {
     (s, names)
 }
 
+/// X.680 20.1: the number of an enumeral may be a value reference (`first(five)`,
+/// `five INTEGER ::= 5`). The compiler may reject the notation (it does), but if it accepts it
+/// the numbering must be that of the same type with the number written out.
+fn valref_leg(ctx: &mut Ctx) {
+    let pats: Vec<Pat> = vec![
+        Pat { root: vec![Some(5), None, Some(1)], ext: Some(vec![None]) },
+        Pat { root: vec![None, Some(0), None], ext: None },
+        Pat { root: vec![Some(2), Some(0)], ext: Some(vec![Some(7), None]) },
+        Pat { root: vec![None, None], ext: Some(vec![Some(4)]) },
+        Pat { root: vec![Some(1)], ext: None },
+    ];
+    let mut reported = 0;
+    for p in &pats {
+        for nested in [false, true] {
+            // every explicit number in turn becomes a value reference
+            let n_items = p.root.len() + p.ext.as_ref().map_or(0, |e| e.len());
+            for at in 0..n_items {
+                let v = if at < p.root.len() { p.root[at] } else { p.ext.as_ref().unwrap()[at - p.root.len()] };
+                let Some(num) = v else { continue };
+                let literal = print_enum(p);
+                let spelled = format!("{}({num})", enumeral_name(at));
+                let with_ref = literal.replacen(&spelled, &format!("{}(zz-num)", enumeral_name(at)), 1);
+                if with_ref == literal {
+                    continue;
+                }
+                let (decl, name) = if nested { (format!("S0 ::= SEQUENCE {{ f {with_ref} }}"), "S0F".to_string()) } else { (format!("E0 ::= {with_ref}"), "E0".to_string()) };
+                let text = format!("Enum-Mod DEFINITIONS AUTOMATIC TAGS ::= BEGIN\nzz-num INTEGER ::= {num}\n{decl}\nEND\n");
+                ctx.case(&text, true);
+                ctx.class("leg:enumeral-number-by-value-reference");
+                let verdict: Option<String> = match comp::compile_rasn1(&text, &Cfg::default()) {
+                    Outcome::Err(_) => {
+                        ctx.class("valref:rejected");
+                        None
+                    }
+                    Outcome::Panic(p) => Some(format!("panic: {p}")),
+                    Outcome::Ok(c) => match observe(&c.generated, &[name.clone()]) {
+                        Ok(o) => match o.into_iter().next().flatten() {
+                            Some(obs) => {
+                                ctx.class("valref:accepted");
+                                judge(p, &obs).map(|(clause, d)| format!("{clause}: {d}"))
+                            }
+                            // not generated: must be reported
+                            None if !c.warnings.is_empty() => {
+                                ctx.class("valref:reported by a warning");
+                                None
+                            }
+                            None => Some("the type is neither generated nor reported".to_string()),
+                        },
+                        Err(e) => Some(format!("unreadable output: {e}")),
+                    },
+                };
+                if let Some(d) = verdict {
+                    ctx.class("fails:valref");
+                    if reported < 3 {
+                        reported += 1;
+                        ctx.fail(Failure { finding: None, what: format!("enumeral number given by a value reference ({num}): {d} in {with_ref}"), replay: json!({"kind": "c14-valref", "sources": [{"name": "enum.asn", "text": text}], "observed": d}) });
+                    }
+                }
+            }
+        }
+    }
+}
+
 fn run_batch(ctx: &mut Ctx, pats: &[Pat], nested: bool, tagc: &str) {
     let chunks: Vec<&[Pat]> = pats.chunks(400).collect();
     let results: Vec<(Vec<Pat>, Result<Vec<Option<Obs>>, String>, String)> = chunks
@@ -507,5 +570,6 @@ pub fn run(tier: Tier, seed: u64, replay: Option<String>) -> i32 {
     }
     ctx.extra.insert("random_patterns".into(), json!(rnd.len()));
     run_batch(&mut ctx, &rnd, false, "random");
+    valref_leg(&mut ctx);
     ctx.finish()
 }
